@@ -116,7 +116,9 @@ class ShuffleBase(Expr):
                     parent.operand("columns")
                 ]
 
-        if isinstance(
+        # A reduction over all partitions does not care how the rows are
+        # distributed; over a selection of output partitions it does
+        if not (isinstance(self, PartitionsFiltered) and self._filtered) and isinstance(
             parent,
             (
                 Unique,
